@@ -100,6 +100,35 @@ def lm(ctx):
                                  sig=f"chain:{name}:{P['shape']}:{''.join(x)}")
 
 
+@case("C04", "rescaled_underflow", domain="SNum")
+def rescaled_underflow(ctx):
+    """Concrete IEEE guard (NOT a solver verdict; floats are invisible to the real-arithmetic model): on a long,
+    very unlikely context the rescaled Earley LM must still return the exact conditionals.  For S -> a S | eps the
+    conditional distribution does not depend on the context length."""
+    from genlm.grammar.cfg import CFG
+    from genlm.grammar.cfglm import EOS
+    from genlm.grammar.parse.earley_rescaled import EarleyLM
+    from genlm.grammar.semiring import Float
+
+    P = ctx.P
+    n = P["n"]
+    pa = P.get("p", 0.001)
+    g = CFG(Float, "S", {"a", "b"})
+    g.add(pa, "S", "a", "S")
+    g.add(pa / 2, "S", "b", "S")
+    g.add(1 - pa - pa / 2, "S")
+    ok, lm_ = ctx.call("rescaled EarleyLM", EarleyLM, g, sig="rescaled:construct:exception")
+    if not ok:
+        return
+    okc, p0 = ctx.call("p_next(())", lm_.p_next, (), sig="rescaled:p_next:exception")
+    for m in sorted({n // 4, n // 2, n}):
+        okc2, pn = ctx.call(f"p_next(a^{m})", lm_.p_next, tuple("a" * m), sig="rescaled:p_next:exception")
+        if okc and okc2:
+            for t in ("a", "b", EOS):
+                ctx.check(f"rescaled EarleyLM: p_next(a^{m})[{t}] equals p_next(())[{t}] (context probability ~ {pa}^{m})",
+                          abs(float(pn[t]) - float(p0[t])) <= 1e-9, detail=f"{pn[t]} vs {p0[t]}", sig=f"rescaled-underflow:{t}")
+
+
 @case("C04", "unnormalised", domain="SW")
 def unnormalised(ctx):
     """Before normalisation, the weight computed for a next token equals the weight the underlying
@@ -166,6 +195,7 @@ def jobs(tier, seed):
         fx = {"0": 1, "1": 1} if sh == "G-WIDE" else {}
         out.append(dict(case="lm", params=dict(shape=sh, contexts=contexts, chain=[["a", "b"]], lms=["earley"], heap="nondet", fixed=fx), budget=dict(max_paths=6000)))
         out.append(dict(case="lm", params=dict(shape=sh, contexts=contexts, chain=[["a", "b"]], lms=["rescaled"], heap="nondet", fixed=fx), budget=dict(max_paths=6000)))
+    out.append(dict(case="rescaled_underflow", params=dict(n=240 if quick else 400)))
     # a longer context on a tiny skeleton: the product of per-column rescale factors must cancel exactly
     n_long = 10 if quick else 24
     for lmname in ["rescaled", "earley"]:
@@ -188,6 +218,6 @@ INFO = dict(
     explanation="Real language models on symbolic weights; z3 proves normalisation, proportionality to prefix weights and the chain rule for all weights per context.",
     bounds=dict(quick=dict(contexts="<= 2", skeletons=["G-FIN", "G-LIN", "G-PAL"], tie_breaks="G-WIDE"), thorough=dict(contexts="<= 3", skeletons=9, tie_breaks=3)),
     stubs=["agenda summary on recursive systems", "NondetHeap in the tie-break jobs"],
-    outside=["IEEE underflow/rounding", "Earley.logp", "non-linear recursion", "contexts beyond the bound"],
+    outside=["IEEE underflow/rounding for the solver-decided part (one concrete float guard `rescaled_underflow` on a 240/400-token context is included and says so)", "Earley.logp", "non-linear recursion", "contexts beyond the bound"],
     assumptions=["weights >= 0", "finite total weight (pivots > 0)"],
 )
